@@ -360,8 +360,10 @@ def export_3MF(mesh, batch_size=4096, compression=zipfile.ZIP_DEFLATED, compress
                                         )
                                 with xf.element("triangles"):
                                     xf.flush()
-                                    for i in range(0, len(m.faces), batch_size):
-                                        batch = m.faces[i : i + batch_size]
+                                    # a point cloud has vertices but no faces
+                                    faces = getattr(m, "faces", np.zeros((0, 3), dtype=np.int64))
+                                    for i in range(0, len(faces), batch_size):
+                                        batch = faces[i : i + batch_size]
                                         fragment = (
                                             '<triangle v1="{}" v2="{}" v3="{}" />'
                                             * len(batch)
